@@ -40,7 +40,7 @@ def pred_sync(x):
 def strategy(tier):
     elem = st.one_of(st.integers(-3, 3), st.integers(-3, 3), st.tuples(st.just("U"), st.integers(-2, 2), st.integers(0, 99)).map(list), st.none())
     return st.fixed_dictionaries({"xs": st.lists(elem, max_size=8 if tier == "quick" else 14), "kind": st.sampled_from(["list", "tuple", "iter"]),
-                                  "blocking": st.booleans(), "reverse": st.booleans(), "helper": st.sampled_from(HELPERS)})
+                                  "blocking": st.sampled_from([False, True, True, "mixed"]), "reverse": st.booleans(), "helper": st.sampled_from(HELPERS)})
 
 
 def outcome(thunk):
@@ -59,23 +59,31 @@ def check(case, ctx):
     xs = [U(e[1], e[2]) if isinstance(e, list) else e for e in case["xs"]]
     calls = []
 
+    def rounds(x):
+        """how many batching rounds the per-element call needs: uniform, or depending on the element
+        (a read-through cache: hits return at once, misses wait for one or two rounds)"""
+        if blocking == "mixed":
+            k = keyfn(x)
+            return abs(k) % 3 if isinstance(k, int) else 0
+        return 1 if blocking else 0
+
     @A()
     def key(x):
         calls.append(x)
-        if blocking:
+        for _ in range(rounds(x)):
             yield engine.HItem(env, "a", 0, "ok", len(calls))
         return keyfn(x)
 
     @A()
     def pred(x):
         calls.append(x)
-        if blocking:
+        for _ in range(rounds(x)):
             yield engine.HItem(env, "a", 0, "ok", len(calls))
         return pred_sync(x)
 
     def it():
         return {"list": list, "tuple": tuple, "iter": iter}[kind](xs)
-    expect_flush = 1 if (blocking and xs) else 0
+    expect_flush = max([rounds(x) for x in xs] or [0])
     if helper == "amap":
         got, exp = outcome(lambda: amap(key, it())), outcome(lambda: list(map(keyfn, xs)))
     elif helper == "afilter":
@@ -140,20 +148,21 @@ def check(case, ctx):
     def norm(o):
         return o if o[0] != "ok" else ["ok", ids(o[1])]
     viol = []
-    desc = "%s(%s of %r, %s key%s)" % (helper, kind, xs, "blocking" if blocking else "immediate", ", reverse" if reverse else "")
+    desc = "%s(%s of %r, %s key%s)" % (helper, kind, xs, {False: "immediate", True: "blocking", "mixed": "element-dependent blocking (0-2 rounds)"}[blocking], ", reverse" if reverse else "")
     if norm(got) != norm(exp) or (got[0] == "ok" and type(got[1]) is not type(exp[1]) and helper != "asift"):
         viol.append(("C14.builtin:" + helper, "%s returned %r, the built-in counterpart gives %r" % (desc, got, exp)))
     elif got[0] == "ok" and expect_flush is not None and len(env.flushes) != expect_flush:
         viol.append(("C14.one_round:" + helper, "%s needed %d flushes, expected %d (all per-element calls share one flush)" % (desc, len(env.flushes), expect_flush)))
-    elif got[0] == "ok" and expect_flush is None and blocking and len(xs) >= 2 and len(env.flushes) != 1:
-        viol.append(("C14.one_round", "%s needed %d flushes, expected 1" % (desc, len(env.flushes))))
+    elif got[0] == "ok" and expect_flush is None and blocking and len(xs) >= 2 and len(env.flushes) != max(rounds(x) for x in xs):
+        viol.append(("C14.one_round:" + helper, "%s needed %d flushes, expected %d" % (desc, len(env.flushes), max(rounds(x) for x in xs))))
     keys = [keyfn(x) for x in xs]
     dup = len(keys) >= 2 and len(set(map(repr, keys))) < len(keys)
     ctx.label("helper=" + helper)
     ctx.label("one-shot-iterator", kind == "iter")
     ctx.label("duplicate-keys", dup)
     ctx.label("exception-agreed", got[0] == "exc" and not viol)
-    ctx.label("blocking", blocking)
+    ctx.label("blocking", blocking is True)
+    ctx.label("element-dependent-blocking", blocking == "mixed")
     ctx.nontrivial(case, dup or (kind == "iter" and len(xs) >= 1) or got[0] == "exc")
     return viol
 
@@ -165,6 +174,8 @@ def reduce_case(case):
     for i, x in enumerate(xs):
         if x != 0:
             yield dict(case, xs=xs[:i] + [0] + xs[i + 1:])
+    if case["blocking"] == "mixed":
+        yield dict(case, blocking=True)
     if case["blocking"]:
         yield dict(case, blocking=False)
     if case["reverse"]:
